@@ -32,6 +32,7 @@ pub const FAMILIES: &[(&str, u64)] = &[
     ("many-excl", 1),
     ("many-excl-hints", 1),
     ("many-soft", 1),
+    ("many-cand-soft-hints", 1),
     ("huge", 1),
     ("huge-hints", 1),
     ("hub", 1),
